@@ -223,8 +223,11 @@ def run(ctx):
                 ctx.violation('C07/long-window-raised@%s' % type(ex).__name__, 'read() with %d records of its thread before its END raised %r'
                               % (n_ - 1, ex), {'kind': 'code->spec', 'stream': []})
     ctx.extra['long_windows'] = nlong
-    validate_streams(ctx, win_cases, 'win', 'c07win')
-    validate_streams(ctx, full_cases, 'full', 'c07full')
+    # C07 pins: nothing raises, a missing piece is an empty / omitted FIELD.  Which traces appear and what their windows hold
+    # is C04's statement (Pairing_Val sees those deviations too; they are left to C04's check)
+    own = lambda cl, cls: cl in ('raised', 'fields', 'shape')
+    validate_streams(ctx, win_cases, 'win', 'c07win', own=own)
+    validate_streams(ctx, full_cases, 'full', 'c07full', own=own)
     ctx.sample({'case': win_cases[0][0], 'events': [a.abs for a in win_cases[0][2]]})
     ctx.extra['code_to_spec'] = {'decoders_alone': len(names), 'window_mode_cases': len(win_cases),
                                  'full_mode_cases': len(full_cases), 'pipeline_traces_rendered': pipeline_traces}
